@@ -7,7 +7,8 @@
                                           n, hdr, rows;  TRUE: a call on the one Table object of this trace, whose
                                           rows and header are those the TableObject model has at that moment
      row, rws, idx                        arguments of the object calls (cell texts as codes)
-     n, hdr, rows, style, T, ind, al      the table (fromObj = FALSE), style, terminal width, indentation, alignments
+     n, hdr, rows, style, T, ind          the table (fromObj = FALSE), style, terminal width, indentation
+     calls                                the set_column_alignment(col, a) calls made on the style, in order
      tagged                               cells (numbers, row-major) that contain <b>..</b> style tags in the real table
      before, after                        projection of the table's own rows read before / after the call
                                           (tag characters appear as code 9)
@@ -27,8 +28,9 @@ T == Traces[tid]
 Ev == T[l]
 InpOf(e) == IF e.fromObj
             THEN [n |-> tbl.ncols, hdr |-> tbl.hdr # <<>>, rows |-> ShownRows(tbl), style |-> e.style, T |-> e.T,
-                  ind |-> e.ind, al |-> e.al]
-            ELSE [n |-> e.n, hdr |-> e.hdr, rows |-> e.rows, style |-> e.style, T |-> e.T, ind |-> e.ind, al |-> e.al]
+                  ind |-> e.ind, al |-> AlignOf(tbl.ncols, e.calls)]
+            ELSE [n |-> e.n, hdr |-> e.hdr, rows |-> e.rows, style |-> e.style, T |-> e.T, ind |-> e.ind,
+                  al |-> AlignOf(e.n, e.calls)]
 \* a table without body rows draws nothing: no clause applies
 Drawn(e) == IF e.fromObj THEN Shows(tbl) ELSE TRUE
 
